@@ -2,7 +2,9 @@
 C17 — homogenized mobilities respect the classical bounds and address phases by name.
 Property theorems about `KawinV.Homog` (hand model of HomogenizationParameters.py, tied to the
 source by the correspondence check tools/corr/C17.py).  α is any linearly ordered field; the two
-labyrinth statements that need real powers are instantiated on ℝ at the end.
+labyrinth statements that need real powers are instantiated on ℝ at the end.  The last part is
+about MANY points through one shared hash table (`Homog.runPipeline`, composed with the table model
+`KawinV.HashCache`): cached = fresh within the resolution of the key, for every history.
 -/
 import KawinV.Model.Homog
 import Mathlib.Tactic.Ring
@@ -12,6 +14,9 @@ import Mathlib.Tactic.NormNum
 import Mathlib.Tactic.Positivity
 import Mathlib.Algebra.Order.Field.Basic
 import Mathlib.Analysis.SpecialFunctions.Pow.Real
+import Mathlib.Algebra.Order.Floor.Ring
+import Mathlib.Data.Rat.Floor
+import Mathlib.Data.List.Forall2
 
 set_option linter.unusedSectionVars false
 set_option linter.unusedVariables false
@@ -812,5 +817,456 @@ example : wienerLower exPs = 8/5 ∧ hsLower exPs = 22/13 ∧ hsUpper exPs = 12/
   refine ⟨?_, ?_, ?_, ?_⟩ <;>
     norm_num [exPs, wienerLower, wienerUpper, hsLower, hsUpper, hsGeneral, hsTerm, sumMap, minL, maxL]
 
+/-! ### many points through ONE shared hash table: cached = fresh, up to the resolution of the key
+
+`Homog.runPipeline` composes the table machine of `KawinV.HashCache` (the model C09 ties to
+`HashTable`) with `evalCached`.  Generic part (any key function, any thermodynamics function
+`therm`, any history of control calls and pipeline calls): every answer is `evalPoint` on
+`therm x' T'` for a point `(x', T')` that was asked for before (or is the point itself) and has the
+SAME KEY as the point asked for; with caching off it is `evalPoint` on `therm x T` itself (the
+"fresh" evaluation the oracle compares with); asking again gives the same answer.  Key part: with
+the code's key — composition AND temperature multiplied by `10^s`, then truncated — equal keys of
+physical points (mole fractions and absolute temperature are non-negative) force
+`|xᵢ - x'ᵢ| < 10^-s` and `|T - T'| < 10^-s`.  Witness: a key that leaves the temperature unscaled
+merges `T` and `T + 0.8` at EVERY precision, and a table with that key answers a query at 1073.8 K
+with the record of 1073.0 K. -/
+
+section shared
+open KawinV.HashCache
+variable {ι : Type} [DecidableEq ι] {κ : Type} [DecidableEq κ]
+
+theorem lookup_mem {ν : Type} {k : κ} {v : ν} :
+    ∀ {l : List (κ × ν)}, lookup k l = some v → (k, v) ∈ l
+  | [], h => by simp [lookup] at h
+  | (k', v') :: r, h => by
+    unfold lookup at h
+    split at h
+    · next hk => cases h; subst hk; exact List.mem_cons_self
+    · exact List.mem_cons_of_mem _ (lookup_mem h)
+
+/-- every stored record is `therm` of an admissible point whose key (at the table's current
+precision) is the stored key -/
+def SoundT (Adm : List α → α → Prop) (key : Nat → List α → α → κ) (therm : List α → α → Point ι α)
+    (t : Table κ (Point ι α)) : Prop :=
+  ∀ k v, (k, v) ∈ t.data → ∃ x' T', Adm x' T' ∧ v = therm x' T' ∧ key t.sens x' T' = k
+
+theorem soundT_init (Adm : List α → α → Prop) (key : Nat → List α → α → κ)
+    (therm : List α → α → Point ι α) : SoundT Adm key therm (init : Table κ (Point ι α)) := by
+  intro k v h; simp [init] at h
+
+theorem cachedQuery_keeps {ν : Type} (key : Nat → List α → α → κ) (f : List α → α → ν)
+    (t : Table κ ν) (x : List α) (T : α) :
+    (cachedQuery Cfg.fixed key f t x T).2.sens = t.sens ∧
+    (cachedQuery Cfg.fixed key f t x T).2.flag = t.flag := by
+  unfold cachedQuery
+  split
+  · exact ⟨rfl, rfl⟩
+  · simp only [step]; split <;> exact ⟨rfl, rfl⟩
+
+theorem cachedQuery_off {ν : Type} (key : Nat → List α → α → κ) (f : List α → α → ν)
+    (t : Table κ ν) (h : t.flag = false) (x : List α) (T : α) :
+    (cachedQuery Cfg.fixed key f t x T).1 = f x T := by
+  simp [cachedQuery, retrieve, isOn, Cfg.fixed, h]
+
+/-- one cached query returns `therm` at an admissible point with the same key; the table stays sound -/
+theorem cachedQuery_spec (Adm : List α → α → Prop) (key : Nat → List α → α → κ)
+    (therm : List α → α → Point ι α) (t : Table κ (Point ι α)) (h : SoundT Adm key therm t)
+    (x : List α) (T : α) (hx : Adm x T) :
+    (∃ x' T', Adm x' T' ∧ (cachedQuery Cfg.fixed key therm t x T).1 = therm x' T' ∧
+        key t.sens x' T' = key t.sens x T) ∧
+    SoundT Adm key therm (cachedQuery Cfg.fixed key therm t x T).2 := by
+  unfold cachedQuery
+  split
+  · next v hv =>
+    refine ⟨?_, h⟩
+    unfold retrieve at hv
+    split at hv
+    · obtain ⟨x', T', h0, h1, h2⟩ := h _ v (lookup_mem hv)
+      exact ⟨x', T', h0, h1, h2⟩
+    · cases hv
+  · refine ⟨⟨x, T, hx, rfl, rfl⟩, ?_⟩
+    simp only [step]
+    split
+    · intro k v hm
+      simp only [List.mem_cons, Prod.mk.injEq] at hm
+      rcases hm with ⟨hk, hv⟩ | hm
+      · exact ⟨x, T, hx, hv, hk.symm⟩
+      · exact h k v hm
+    · exact h
+
+/-- asking for the same point again right away: same record, same table -/
+theorem cachedQuery_twice {ν : Type} (key : Nat → List α → α → κ) (f : List α → α → ν)
+    (t : Table κ ν) (x : List α) (T : α) :
+    cachedQuery Cfg.fixed key f (cachedQuery Cfg.fixed key f t x T).2 x T
+      = cachedQuery Cfg.fixed key f t x T := by
+  cases hr : retrieve Cfg.fixed key t x T with
+  | some v => simp [cachedQuery, hr]
+  | none =>
+    by_cases hon : isOn Cfg.fixed t = true
+    · have h1 : cachedQuery Cfg.fixed key f t x T
+          = (f x T, { t with data := (key t.sens x T, f x T) :: t.data }) := by
+        simp [cachedQuery, hr, step, hon]
+      rw [h1]
+      simp [cachedQuery, retrieve, isOn, lookup, Cfg.fixed] at hon ⊢
+      simp [hon]
+    · have h1 : cachedQuery Cfg.fixed key f t x T = (f x T, t) := by
+        simp [cachedQuery, hr, step, hon]
+      rw [h1]; exact h1
+
+variable (Adm : List α → α → Prop) (key : Nat → List α → α → κ) (therm : List α → α → Point ι α)
+  (pw : α → α → α) (tiny big : α) (db : List ι)
+
+/-- the answer `a` for `(x, T)` under `cfg` is the evaluation of the record of an admissible point
+with the same key at precision `s` -/
+def Served (s : Nat) (cfg : Cfg ι α) (x : List α) (T : α) (a : Except String (List α)) : Prop :=
+  ∃ x' T', Adm x' T' ∧ a = evalPoint pw tiny big db cfg (therm x' T') ∧ key s x' T' = key s x T
+
+theorem evalVia_fst (cfg : Cfg ι α) (t : Table κ (Point ι α)) (x : List α) (T : α) :
+    (evalVia key therm pw tiny big db cfg t x T).1
+      = evalPoint pw tiny big db cfg (cachedQuery Cfg.fixed key therm t x T).1 := rfl
+
+theorem evalVia_snd (cfg : Cfg ι α) (t : Table κ (Point ι α)) (x : List α) (T : α) :
+    (evalVia key therm pw tiny big db cfg t x T).2 = (cachedQuery Cfg.fixed key therm t x T).2 := rfl
+
+/-- one point of a call -/
+theorem evalVia_spec (cfg : Cfg ι α) (t : Table κ (Point ι α)) (h : SoundT Adm key therm t)
+    (x : List α) (T : α) (hx : Adm x T) :
+    Served Adm key therm pw tiny big db t.sens cfg x T (evalVia key therm pw tiny big db cfg t x T).1 ∧
+    SoundT Adm key therm (evalVia key therm pw tiny big db cfg t x T).2 ∧
+    (evalVia key therm pw tiny big db cfg t x T).2.sens = t.sens ∧
+    (evalVia key therm pw tiny big db cfg t x T).2.flag = t.flag ∧
+    (t.flag = false → (evalVia key therm pw tiny big db cfg t x T).1
+        = evalPoint pw tiny big db cfg (therm x T)) := by
+  obtain ⟨⟨x', T', h0, h1, h2⟩, hS⟩ := cachedQuery_spec Adm key therm t h x T hx
+  refine ⟨⟨x', T', h0, ?_, h2⟩, hS, (cachedQuery_keeps key therm t x T).1,
+    (cachedQuery_keeps key therm t x T).2, ?_⟩
+  · rw [evalVia_fst, h1]
+  · intro hf; rw [evalVia_fst, cachedQuery_off key therm t hf]
+
+/-- **twice = once, rule / post-process switches**: the same point asked again right away — under the
+same or ANOTHER configuration — is answered from the very record the first answer was computed from,
+and the table is the same -/
+theorem evalVia_again (cfg cfg' : Cfg ι α) (t : Table κ (Point ι α)) (x : List α) (T : α) :
+    evalVia key therm pw tiny big db cfg' (evalVia key therm pw tiny big db cfg t x T).2 x T
+      = (evalPoint pw tiny big db cfg' (cachedQuery Cfg.fixed key therm t x T).1,
+         (evalVia key therm pw tiny big db cfg t x T).2) := by
+  rw [evalVia_snd]
+  show (evalPoint pw tiny big db cfg'
+      (cachedQuery Cfg.fixed key therm (cachedQuery Cfg.fixed key therm t x T).2 x T).1,
+      (cachedQuery Cfg.fixed key therm (cachedQuery Cfg.fixed key therm t x T).2 x T).2) = _
+  rw [cachedQuery_twice]
+
+theorem evalVia_twice (cfg : Cfg ι α) (t : Table κ (Point ι α)) (x : List α) (T : α) :
+    evalVia key therm pw tiny big db cfg (evalVia key therm pw tiny big db cfg t x T).2 x T
+      = evalVia key therm pw tiny big db cfg t x T := by
+  rw [evalVia_again]; rfl
+
+/-- what the oracle checks for one point `p` of a call answered `v` at precision `s`, flag `fl` -/
+def PointOK (s : Nat) (fl : Bool) (cfg : Cfg ι α) (p : List α × α) (v : List α) : Prop :=
+  Served Adm key therm pw tiny big db s cfg p.1 p.2 (.ok v) ∧
+  (fl = false → Except.ok v = evalPoint pw tiny big db cfg (therm p.1 p.2))
+
+/-- one call (array call: several points, in order) -/
+theorem callVia_spec (cfg : Cfg ι α) :
+    ∀ (pts : List (List α × α)) (t : Table κ (Point ι α)), SoundT Adm key therm t →
+      (∀ p ∈ pts, Adm p.1 p.2) →
+      SoundT Adm key therm (callVia key therm pw tiny big db cfg t pts).2 ∧
+      (callVia key therm pw tiny big db cfg t pts).2.sens = t.sens ∧
+      (callVia key therm pw tiny big db cfg t pts).2.flag = t.flag ∧
+      ∀ vs, (callVia key therm pw tiny big db cfg t pts).1 = .ok vs →
+        List.Forall₂ (PointOK Adm key therm pw tiny big db t.sens t.flag cfg) pts vs
+  | [], t, h, _ => by
+    refine ⟨h, rfl, rfl, ?_⟩
+    intro vs hvs
+    simp only [callVia, Except.ok.injEq] at hvs
+    subst hvs; exact List.Forall₂.nil
+  | p :: r, t, h, hadm => by
+    obtain ⟨hs, hsound, hsens, hflag, hoff⟩ :=
+      evalVia_spec Adm key therm pw tiny big db cfg t h p.1 p.2 (hadm p (by simp))
+    obtain ⟨ihS, ihsens, ihflag, ihF⟩ :=
+      callVia_spec cfg r _ hsound (fun q hq => hadm q (by simp [hq]))
+    unfold callVia
+    simp only []
+    split
+    · next e he =>
+      refine ⟨hsound, hsens, hflag, ?_⟩
+      intro vs hvs; cases hvs
+    · next v hv =>
+      refine ⟨ihS, ihsens.trans hsens, ihflag.trans hflag, ?_⟩
+      intro vs hvs
+      cases hb : (callVia key therm pw tiny big db cfg
+          (evalVia key therm pw tiny big db cfg t p.1 p.2).2 r).1 with
+      | error e => rw [hb] at hvs; cases hvs
+      | ok ws =>
+        rw [hb] at hvs
+        simp only [Except.map, Except.ok.injEq] at hvs
+        subst hvs
+        refine List.Forall₂.cons ⟨?_, ?_⟩ ?_
+        · rw [← hv]; exact hs
+        · intro hf; rw [← hv]; exact hoff hf
+        · have := ihF ws hb
+          rw [hsens, hflag] at this
+          exact this
+
+/-- all points of all calls of a history are admissible -/
+def AdmHist (evs : List (PEv ι α)) : Prop :=
+  ∀ cfg pts, PEv.call cfg pts ∈ evs → ∀ p ∈ pts, Adm p.1 p.2
+
+/-- the table stays sound along every history -/
+theorem runPipeline_sound :
+    ∀ (evs : List (PEv ι α)) (t : Table κ (Point ι α)), SoundT Adm key therm t → AdmHist Adm evs →
+      SoundT Adm key therm (runPipeline key therm pw tiny big db t evs).1
+  | [], t, h, _ => by simpa [runPipeline] using h
+  | .enable b :: r, t, h, ha => by
+    simp only [runPipeline]
+    refine runPipeline_sound r _ ?_ (fun c ps hm => ha c ps (by simp [hm]))
+    simpa [step, SoundT] using h
+  | .clear :: r, t, h, ha => by
+    simp only [runPipeline]
+    refine runPipeline_sound r _ ?_ (fun c ps hm => ha c ps (by simp [hm]))
+    intro k v hm; simp [step] at hm
+  | .setSens s :: r, t, h, ha => by
+    simp only [runPipeline]
+    refine runPipeline_sound r _ ?_ (fun c ps hm => ha c ps (by simp [hm]))
+    intro k v hm; simp [step, Cfg.fixed] at hm
+  | .call cfg pts :: r, t, h, ha => by
+    simp only [runPipeline]
+    exact runPipeline_sound r _
+      (callVia_spec Adm key therm pw tiny big db cfg pts t h (ha cfg pts (by simp))).1
+      (fun c ps hm => ha c ps (by simp [hm]))
+
+/-- **cached = fresh at an equal key, for every history**: after any history of control calls
+(enable/disable, clear, change of precision) and pipeline calls on a new table, every answer of the
+next call is the evaluation — under the call's configuration — of the record of a point with the
+same key at the current precision; with caching off, of the point itself. -/
+theorem shared_table_answers (evs : List (PEv ι α)) (hev : AdmHist Adm evs) (cfg : Cfg ι α)
+    (pts : List (List α × α)) (hp : ∀ p ∈ pts, Adm p.1 p.2) (vs : List (List α)) :
+    let t := (runPipeline key therm pw tiny big db (init : Table κ (Point ι α)) evs).1
+    (callVia key therm pw tiny big db cfg t pts).1 = .ok vs →
+      List.Forall₂ (PointOK Adm key therm pw tiny big db t.sens t.flag cfg) pts vs := by
+  intro t hvs
+  exact (callVia_spec Adm key therm pw tiny big db cfg pts t
+    (runPipeline_sound Adm key therm pw tiny big db evs _ (soundT_init Adm key therm) hev) hp).2.2.2 vs hvs
+
+end shared
+
+/-! #### the key: composition and temperature scaled by `10^s`, truncated toward zero -/
+
+section key
+open KawinV.HashCache
+variable [FloorRing α]
+
+/-- `astype(int)`: truncation toward zero -/
+def truncZ (v : α) : Int := if 0 ≤ v then ⌊v⌋ else ⌈v⌉
+
+/-- the key arithmetic over an ordered field with a floor function -/
+@[reducible] def fieldKey : KeyScalar α := ⟨fun n => (n : α), fun a b => a * b, fun v => some (truncZ v)⟩
+
+/-- the code's key (`HashCache.keyExact`) over the field -/
+def keyF (s : Nat) (x : List α) (T : α) : List (Option Int) := @keyExact α fieldKey s x T
+
+/-- the key with the temperature left unscaled (`Homog.keyWholeT`) over the field -/
+def keyWholeTF (s : Nat) (x : List α) (T : α) : List (Option Int) := @keyWholeT α fieldKey s x T
+
+theorem scaled_eq (s : Nat) (v : α) : @scaled α fieldKey s v = some (truncZ (v * (10:α) ^ s)) := by
+  show some (truncZ (v * ((10 ^ s : ℕ) : α))) = _
+  rw [Nat.cast_pow]; norm_num
+
+theorem truncZ_close (a b : α) (ha : 0 ≤ a) (hb : 0 ≤ b) (h : truncZ a = truncZ b) : |a - b| < 1 := by
+  simp only [truncZ, ha, hb, if_true] at h
+  exact Int.abs_sub_lt_one_of_floor_eq_floor h
+
+/-- one coordinate: equal scaled-and-truncated values of non-negative numbers are closer than `10^-s` -/
+theorem scaled_close (s : Nat) (v w : α) (hv : 0 ≤ v) (hw : 0 ≤ w)
+    (h : @scaled α fieldKey s v = @scaled α fieldKey s w) : |v - w| < 1 / (10:α) ^ s := by
+  rw [scaled_eq, scaled_eq] at h
+  have hp : (0:α) < (10:α) ^ s := by positivity
+  have h1 := truncZ_close _ _ (mul_nonneg hv hp.le) (mul_nonneg hw hp.le) (Option.some.inj h)
+  rw [← sub_mul, abs_mul, abs_of_pos hp] at h1
+  rw [lt_div_iff₀ hp]; exact h1
+
+/-- mole fractions and the absolute temperature are non-negative -/
+def PhysPoint (x : List α) (T : α) : Prop := (∀ a ∈ x, 0 ≤ a) ∧ 0 ≤ T
+
+/-- closer than `10^-s` in every coordinate -/
+def Within (s : Nat) (x : List α) (T : α) (x' : List α) (T' : α) : Prop :=
+  List.Forall₂ (fun a b => |a - b| < 1 / (10:α) ^ s) x x' ∧ |T - T'| < 1 / (10:α) ^ s
+
+theorem forall₂_of_map_eq {β γ : Type} (f : β → γ) (P : β → Prop) (R : β → β → Prop)
+    (hR : ∀ a b, P a → P b → f a = f b → R a b) :
+    ∀ (l l' : List β), (∀ a ∈ l, P a) → (∀ b ∈ l', P b) → l.map f = l'.map f → List.Forall₂ R l l'
+  | [], [], _, _, _ => List.Forall₂.nil
+  | [], _ :: _, _, _, h => by simp at h
+  | _ :: _, [], _, _, h => by simp at h
+  | a :: l, b :: l', ha, hb, h => by
+    simp only [List.map_cons, List.cons.injEq] at h
+    exact List.Forall₂.cons (hR a b (ha a (by simp)) (hb b (by simp)) h.1)
+      (forall₂_of_map_eq f P R hR l l' (fun c hc => ha c (by simp [hc]))
+        (fun c hc => hb c (by simp [hc])) h.2)
+
+theorem keyF_split (s : Nat) (x x' : List α) (T T' : α) (h : keyF s x T = keyF s x' T') :
+    x.map (@scaled α fieldKey s) = x'.map (@scaled α fieldKey s) ∧
+    @scaled α fieldKey s T = @scaled α fieldKey s T' := by
+  unfold keyF keyExact at h
+  rw [List.map_append, List.map_append, List.map_singleton, List.map_singleton] at h
+  exact List.append_singleton_inj.mp h
+
+/-- **resolution of the key**: two physical points with equal keys at precision `s` differ by less
+than `10^-s` in every composition coordinate and in temperature -/
+theorem keyF_eq_within (s : Nat) (x x' : List α) (T T' : α) (hp : PhysPoint x T) (hp' : PhysPoint x' T')
+    (h : keyF s x T = keyF s x' T') : Within s x T x' T' := by
+  obtain ⟨hx, hT⟩ := keyF_split s x x' T T' h
+  exact ⟨forall₂_of_map_eq _ (fun a => 0 ≤ a) _ (fun a b ha hb hab => scaled_close s a b ha hb hab)
+    x x' hp.1 hp'.1 hx, scaled_close s T T' hp.2 hp'.2 hT⟩
+
+/-- temperatures at least `10^-s` apart never share a key (whatever the compositions) -/
+theorem keyF_separates (s : Nat) (x x' : List α) (T T' : α) (hT : 0 ≤ T) (hT' : 0 ≤ T')
+    (hd : 1 / (10:α) ^ s ≤ |T - T'|) : keyF s x T ≠ keyF s x' T' := by
+  intro h
+  exact absurd (scaled_close s T T' hT hT' (keyF_split s x x' T T' h).2) (not_lt.mpr hd)
+
+/-- **witness (temperature left unscaled)**: a whole number of kelvin and anything less than one
+kelvin above it get the same key AT EVERY PRECISION `s` -/
+theorem wholeT_merges (s : Nat) (x : List α) (n : ℕ) (d : α) (h0 : 0 ≤ d) (h1 : d < 1) :
+    keyWholeTF s x (n : α) = keyWholeTF s x ((n : α) + d) := by
+  have hn : (0:α) ≤ (n : α) := Nat.cast_nonneg n
+  have e1 : truncZ ((n : α)) = (n : ℤ) := by
+    simp only [truncZ, hn, if_true]; exact Int.floor_natCast n
+  have e2 : truncZ ((n : α) + d) = (n : ℤ) := by
+    have : (0:α) ≤ (n : α) + d := add_nonneg hn h0
+    simp only [truncZ, this, if_true]
+    rw [Int.floor_eq_iff]
+    constructor
+    · push_cast; linarith
+    · push_cast; linarith
+  simp only [keyWholeTF, keyWholeT, KeyScalar.trunc, e1, e2]
+
+/-- 1073.0 K and 1073.8 K: merged at every precision by the unscaled-temperature key … -/
+theorem wholeT_merges_1073 (s : Nat) (x : List α) :
+    keyWholeTF s x (1073 : α) = keyWholeTF s x ((1073 : α) + 4 / 5) := by
+  have := wholeT_merges s x 1073 ((4:α) / 5) (by norm_num) (by norm_num)
+  simpa using this
+
+/-- … and kept apart by the code's key at every precision of at least one digit -/
+theorem keyF_separates_1073 (s : Nat) (hs : 1 ≤ s) (x x' : List α) :
+    keyF s x (1073 : α) ≠ keyF s x' ((1073 : α) + 4 / 5) := by
+  refine keyF_separates s x x' _ _ (by norm_num) (by norm_num) ?_
+  have h10 : (10:α) ^ 1 ≤ (10:α) ^ s := pow_le_pow_right₀ (by norm_num) hs
+  have hp : (0:α) < (10:α) ^ s := by positivity
+  rw [div_le_iff₀ hp]
+  have : |(1073:α) - (1073 + 4 / 5)| = 4 / 5 := by
+    rw [show (1073:α) - (1073 + 4 / 5) = -(4 / 5) by ring, abs_neg, abs_of_pos (by norm_num)]
+  rw [this]
+  nlinarith
+
+end key
+
+/-! #### the pipeline with the code's key: cached = fresh within `10^-s` -/
+
+section resolution
+open KawinV.HashCache
+variable {ι : Type} [DecidableEq ι] [FloorRing α]
+
+/-- **the statement the cached-vs-fresh oracle relies on.**  For every thermodynamics function, every
+history of control calls and pipeline calls at physical points on a new table, and every next call:
+each answer equals the FRESH evaluation (no cache) — under the call's rule, labyrinth factor and
+post-processing — of a physical point that differs from the point asked for by less than `10^-s` in
+every composition coordinate and in temperature (`s` = the table's current precision); with caching
+off it equals the fresh evaluation of the point itself. -/
+theorem cached_answer_is_fresh_within_resolution (therm : List α → α → Point ι α)
+    (pw : α → α → α) (tiny big : α) (db : List ι)
+    (evs : List (PEv ι α)) (hev : AdmHist PhysPoint evs) (cfg : Cfg ι α)
+    (pts : List (List α × α)) (hp : ∀ p ∈ pts, PhysPoint p.1 p.2) (vs : List (List α)) :
+    let t := (runPipeline keyF therm pw tiny big db (init : Table (List (Option Int)) (Point ι α)) evs).1
+    (callVia keyF therm pw tiny big db cfg t pts).1 = .ok vs →
+      List.Forall₂ (fun p v =>
+        (∃ x' T', Within t.sens p.1 p.2 x' T' ∧
+          Except.ok v = evalPoint pw tiny big db cfg (therm x' T')) ∧
+        (t.flag = false → Except.ok v = evalPoint pw tiny big db cfg (therm p.1 p.2))) pts vs := by
+  intro t hvs
+  have h := shared_table_answers PhysPoint keyF therm pw tiny big db evs hev cfg pts hp vs hvs
+  -- strengthen pointwise
+  have key : ∀ (l : List (List α × α)) (ws : List (List α)), (∀ p ∈ l, PhysPoint p.1 p.2) →
+      List.Forall₂ (PointOK PhysPoint keyF therm pw tiny big db t.sens t.flag cfg) l ws →
+      List.Forall₂ (fun p v =>
+        (∃ x' T', Within t.sens p.1 p.2 x' T' ∧
+          Except.ok v = evalPoint pw tiny big db cfg (therm x' T')) ∧
+        (t.flag = false → Except.ok v = evalPoint pw tiny big db cfg (therm p.1 p.2))) l ws := by
+    intro l ws hl hf
+    induction hf with
+    | nil => exact List.Forall₂.nil
+    | cons hpv _ ih =>
+      refine List.Forall₂.cons ?_ (ih (fun q hq => hl q (by simp [hq])))
+      obtain ⟨⟨x', T', hadm, hval, hkey⟩, hoff⟩ := hpv
+      exact ⟨⟨x', T', keyF_eq_within _ _ _ _ _ (hl _ (by simp)) hadm hkey.symm, hval⟩, hoff⟩
+  exact key pts vs hp h
+
+end resolution
+
+/-! #### witnesses on exact decimals (`HashCache.Dec`; `decide` computes): the table machine with
+the stored value = the temperature the record was computed at -/
+
+section witness
+open KawinV.HashCache
+
+/-- x = (0.7, 0.05) -/
+def wX : List Dec := [⟨7, 1⟩, ⟨5, 2⟩]
+
+/-- temperature left unscaled: the query at 1073.8 K is answered with the record of 1073.0 K -/
+theorem wholeT_table_returns_other_temperature :
+    (runEvs Cfg.fixed (keyWholeT (α := Dec)) (fun _ T => T) (init : Table (List (Option Int)) Dec)
+      [.query wX ⟨10730, 1⟩, .query wX ⟨10738, 1⟩, .query wX ⟨10730, 1⟩]).2
+      = [⟨10730, 1⟩, ⟨10730, 1⟩, ⟨10730, 1⟩] := by decide
+
+/-- the code's key: every query is answered with its own record, the repeated one too -/
+theorem scaledT_table_returns_own_temperature :
+    (runEvs Cfg.fixed (keyExact (α := Dec)) (fun _ T => T) (init : Table (List (Option Int)) Dec)
+      [.query wX ⟨10730, 1⟩, .query wX ⟨10738, 1⟩, .query wX ⟨10730, 1⟩]).2
+      = [⟨10730, 1⟩, ⟨10738, 1⟩, ⟨10730, 1⟩] := by decide
+
+/-- the truncation is toward zero: without the sign hypothesis of `keyF_eq_within` two values
+`2·10^-s` apart can share a key (−0.00009 and 0.00009 at `s = 4`) -/
+example : keyExact (α := Dec) 4 [⟨-9, 5⟩] ⟨10730, 1⟩ = keyExact (α := Dec) 4 [⟨9, 5⟩] ⟨10730, 1⟩ := by decide
+
+end witness
+
+/-! #### non-vacuity of the new hypothesis sets -/
+
+section nonvac
+open KawinV.HashCache
+
+/-- two DIFFERENT physical points with equal keys exist (so `keyF_eq_within` is not vacuous) … -/
+example : keyF 4 [(7:ℚ) / 10] 1073 = keyF 4 [(7:ℚ) / 10 + 1 / 100000] (1073 + 3 / 100000) ∧
+    PhysPoint [(7:ℚ) / 10] 1073 ∧ PhysPoint [(7:ℚ) / 10 + 1 / 100000] (1073 + 3 / 100000) := by
+  refine ⟨?_, ⟨?_, by norm_num⟩, ⟨?_, by norm_num⟩⟩
+  · have f1 : truncZ ((7:ℚ) / 10 * 10 ^ 4) = 7000 := by
+      simp only [truncZ]; norm_num
+    have f2 : truncZ (((7:ℚ) / 10 + 1 / 100000) * 10 ^ 4) = 7000 := by
+      have : (0:ℚ) ≤ ((7:ℚ) / 10 + 1 / 100000) * 10 ^ 4 := by norm_num
+      simp only [truncZ, this, if_true]; rw [Int.floor_eq_iff]; norm_num
+    have f3 : truncZ ((1073:ℚ) * 10 ^ 4) = 10730000 := by
+      simp only [truncZ]; norm_num
+    have f4 : truncZ (((1073:ℚ) + 3 / 100000) * 10 ^ 4) = 10730000 := by
+      have : (0:ℚ) ≤ ((1073:ℚ) + 3 / 100000) * 10 ^ 4 := by norm_num
+      simp only [truncZ, this, if_true]; rw [Int.floor_eq_iff]; norm_num
+    simp only [keyF, keyExact, List.map_append, List.map_cons, List.map_nil, scaled_eq, f1, f2, f3, f4]
+  · intro a ha; simp at ha; subst ha; norm_num
+  · intro a ha; simp at ha; subst ha; norm_num
+
+/-- … and a history of physical points (a sweep over a temperature gradient, a change of precision,
+a second sweep under another rule) meets the hypothesis of `cached_answer_is_fresh_within_resolution` -/
+example : AdmHist (ι := Nat) PhysPoint
+    [PEv.call ⟨.wienerUpper, 1, .none⟩ [([(7:ℚ) / 10], 1073), ([(7:ℚ) / 10], 1073 + 4 / 5)],
+     PEv.setSens 3,
+     PEv.call ⟨.hashinLower, 1, .majority⟩ [([(7:ℚ) / 10], 1073 + 4 / 5)]] := by
+  intro cfg pts hm p hp
+  simp only [List.mem_cons, List.mem_nil_iff, or_false, reduceCtorEq, false_or, PEv.call.injEq] at hm
+  rcases hm with ⟨_, rfl⟩ | ⟨_, rfl⟩
+  · simp only [List.mem_cons, List.mem_nil_iff, or_false] at hp
+    rcases hp with rfl | rfl <;> refine ⟨?_, by norm_num⟩ <;> intro a ha <;> simp at ha <;> subst ha <;> norm_num
+  · simp only [List.mem_cons, List.mem_nil_iff, or_false] at hp
+    subst hp; refine ⟨?_, by norm_num⟩; intro a ha; simp at ha; subst ha; norm_num
+
+end nonvac
 
 end KawinV.Props.C17
